@@ -275,8 +275,19 @@ def main(argv):
     for lab, det in res.errors:
         print('CHECKER-ERROR property=%s in %s: %s' % (prop, lab, det[:1500]))
     bounded_fail = [b for b in res.bounded if not b.get('ok', True)]
-    for b in bounded_fail:
-        print('BOUNDED-CHECK-FAILED property=%s %s: %s' % (prop, b.get('name'), str(b.get('detail'))[:500]))
+    for n_b, b in enumerate(list(bounded_fail)):
+        det = b.get('detail')
+        if isinstance(det, dict) and det.get('bad'):
+            # the bounded stand-in ran and found concrete failing inputs on the real code: a violation with a failing input (the stand-in
+            # is still not a proof when it passes)
+            po = _Ob('%s/bounded-stand-in#%d' % (prop, n_b), [], None, {'function': b.get('name'), 'detail': 'bounded stand-in: %s' % b.get('bound')})
+            po.backend = 'none (bounded native stand-in)'
+            path = write_replay(prop, po, {'confirmed': True, 'input': det['bad'][0], 'observed': det, 'expected': b.get('name')}, outdir)
+            vio_groups[po.name] = [po]
+            bounded_fail.remove(b)
+            print('VIOLATION property=%s replay=%s obligation=%s (failing input found by the bounded native stand-in)' % (prop, path, po.name))
+        else:
+            print('BOUNDED-CHECK-FAILED property=%s %s: %s' % (prop, b.get('name'), str(det)[:500]))
     ledger_missing = check_ledger(prop, res)
     wall = time.time() - t0
     write_evidence(prop, tier, seed, res, wall, violations=len(vio_groups), known_seen=known_seen)
